@@ -20,6 +20,7 @@ MUTANTS = {
     "C06": ["andFalseNeedsBoth", "impliesEmptyIsTrue"],
     "C07": ["firstOfEmptyFabricates", "cmpEmptyIsFalse"],
     "C08": ["noOverflowCheck", "modSignOfDivisor"],
+    "C09": ["noClamp", "weekIs5Days"],
     "C10": ["takeOffByOne", "whereKeepsEmpty"],
     "C12": ["primitiveNoSpecialise"],
     "C13": ["convertsIgnoresTo", "toDateKeepsTime"],
